@@ -2989,7 +2989,7 @@ class QuaternionArray(np.ndarray):
                 raise ValueError("The number of weights do not match the number of quaternions.")
             q *= weights[:, None]
         eigvals, eigvecs = np.linalg.eig(q.T@q)
-        q_avg = eigvecs[:, eigvals.argmax()]
+        q_avg = eigvecs[:, eigvals.real.argmax()].real
         if self.scalar_vector:
             return q_avg
         return np.roll(q_avg, -1)
